@@ -24,6 +24,11 @@ from . import boot
 VERIF = boot.VERIF_DIR
 KNOWN_FILE = os.path.join(VERIF, "known_findings.json")
 DEFAULT_BUDGET = {"quick": (4, 20, 400), "thorough": (16, 240, 100000)}
+# thorough tiers also run the repository's own test suite under the property's passive monitors (second,
+# independent workload). C07 is left out: its monitors recompute sympy matrix powers/exponentials for every
+# modifier call the tests make, which takes > 15 min.
+PIGGYBACK_PROPS = {"C01", "C02", "C03", "C04", "C05", "C06", "C08", "C09", "C10", "C11", "C12", "C13", "C14", "C15",
+                   "C16", "C17", "C18", "C19", "C20"}
 
 
 def evidence_dir():
@@ -362,7 +367,7 @@ def main(argv=None):
     budget = a.budget or budget
     max_cases = a.max_cases or max_cases
     nshards = max(1, min(nshards, os.cpu_count() or 1))
-    piggy = (a.tier == "thorough" and getattr(mod, "PIGGYBACK", False) and not os.environ.get("VERIF_NO_PIGGYBACK")) \
+    piggy = (a.tier == "thorough" and (getattr(mod, "PIGGYBACK", False) or prop in PIGGYBACK_PROPS) and not os.environ.get("VERIF_NO_PIGGYBACK")) \
         or a.piggyback
     results = run_shards(prop, a.tier, seed, nshards, budget, max_cases, piggyback=piggy)
     m = merge(results)
